@@ -12,11 +12,18 @@ ORDER_KEEPING = {"map", "list", "tuple", "iter", "chain", "from_iterable"}
 ORDER_BREAKING = {"sorted", "reversed", "set", "frozenset", "shuffle", "sample"}
 
 
+def _is_params_sub(e, irp):
+    return (isinstance(e, ast.Subscript) and isinstance(e.slice, ast.Constant) and e.slice.value == "params"
+            and isinstance(e.value, ast.Name) and e.value.id == irp)
+
+
 def _is_params_items(e, irp):
-    """e is <ir>["params"].items()"""
-    return (isinstance(e, ast.Call) and isinstance(e.func, ast.Attribute) and e.func.attr == "items" and not e.args
-            and isinstance(e.func.value, ast.Subscript) and isinstance(e.func.value.slice, ast.Constant) and e.func.value.slice.value == "params"
-            and isinstance(e.func.value.value, ast.Name) and e.func.value.value.id == irp)
+    """e is <ir>["params"].items() (-> "items"), <ir>["params"].keys() or <ir>["params"] iterated directly (-> "keys")"""
+    if isinstance(e, ast.Call) and isinstance(e.func, ast.Attribute) and e.func.attr in ("items", "keys") and not e.args and _is_params_sub(e.func.value, irp):
+        return e.func.attr
+    if _is_params_sub(e, irp) and isinstance(getattr(e, "_parent", None), (ast.comprehension, ast.For)) and e._parent.iter is e:
+        return "keys"
+    return None
 
 
 def _name_only_pred(lam):
@@ -62,11 +69,14 @@ def _pred_core(lam):
     return _norm_name_expr(b, pname=lam.args.args[0].arg), neg
 
 
-def _comp_pred_core(target, cond):
+def _comp_pred_core(target, cond, keys=False):
     """(core, negated) of a comprehension condition that depends on the item's name only, else None"""
     b, neg = cond, False
     while isinstance(b, ast.UnaryOp) and isinstance(b.op, ast.Not):
         b, neg = b.operand, not neg
+    if keys and isinstance(target, ast.Name):
+        core = _norm_name_expr(b, namevar=target.id)
+        return (core, neg) if core is not None else None
     if isinstance(target, ast.Tuple) and len(target.elts) == 2 and isinstance(target.elts[0], ast.Name):
         other = {n.id for n in ast.walk(target.elts[1]) if isinstance(n, ast.Name)}
         if {n.id for n in ast.walk(b) if isinstance(n, ast.Name)} & other:
@@ -204,6 +214,8 @@ def rule_order(prog, rep, tier, only=None):
                         else:
                             verdict = "filtered by a predicate that looks beyond the parameter name: %s" % src(p.args[0], 60)
                             break
+                    elif nm in ("set", "frozenset") and _is_params_items(s, irp) == "keys":
+                        break  # a membership set of the parameter names, not an emitted sequence
                     elif nm in ORDER_BREAKING:
                         verdict = "%s(...) between the parameter mapping and the emitted sequence" % nm
                         break
@@ -216,7 +228,7 @@ def rule_order(prog, rep, tier, only=None):
                 elif isinstance(p, ast.comprehension):
                     comp = p._parent
                     for cond in p.ifs:
-                        core = _comp_pred_core(p.target, cond)
+                        core = _comp_pred_core(p.target, cond, keys=_is_params_items(s, irp) == "keys")
                         if core is None:
                             verdict = "comprehension condition that looks beyond the parameter name: %s" % src(cond, 60)
                         else:
@@ -289,6 +301,9 @@ def self_check(prog, rep, fi, q, fe, at, ctor, slot_of, how):
         tgt = fe.generators[0].target
         keyvars = {tgt.elts[0].id} if isinstance(tgt, ast.Tuple) and tgt.elts and isinstance(tgt.elts[0], ast.Name) else set()
         pvar = tgt.id if isinstance(tgt, ast.Name) else None
+        it_ = fe.generators[0].iter
+        if pvar and (_is_params_sub(it_, fi.params()[0]) or (isinstance(it_, ast.Call) and isinstance(it_.func, ast.Attribute) and it_.func.attr == "keys")):
+            keyvars, pvar = {pvar}, None  # iteration over the keys: the loop variable is the parameter name
         elt = fe.elt
         if isinstance(elt, ast.Call) and not any(isinstance(c, ast.Call) and (c.func.id if isinstance(c.func, ast.Name) else getattr(c.func, "attr", "")) == ctor for c in ast.walk(elt)):
             # [f(param) for param in items]: judge f
@@ -431,95 +446,158 @@ def rule_sigcover(prog, rep, tier, anchor="parse.function", components=("args", 
 
 
 # ---------------------------------------------------------------------------- ALL-PAIR
+def _has_all_ctor(nodes):
+    """Call nodes building an Assign(...) node that mentions the constant "__all__" """
+    return [c for nd in nodes for c in ast.walk(nd) if isinstance(c, ast.Call) and (c.func.id if isinstance(c.func, ast.Name) else getattr(c.func, "attr", "")) == "Assign"
+            and any(isinstance(x, ast.Constant) and x.value == "__all__" for x in ast.walk(c))]
+
+
+def _resolve_single_def(e, scope_nodes, depth=0):
+    """a Name bound exactly once in the scopes -> its value; a lambda parameter -> the argument the lambda is applied to"""
+    while isinstance(e, ast.Name) and depth < 4:
+        depth += 1
+        lam = getattr(e, "_parent", None)
+        while lam is not None and not (isinstance(lam, ast.Lambda) and e.id in {a.arg for a in lam.args.args}):
+            lam = getattr(lam, "_parent", None)
+        if lam is not None and isinstance(lam._parent, ast.Call) and lam._parent.func is lam and lam._parent.args:
+            e = lam._parent.args[[a.arg for a in lam.args.args].index(e.id)]
+            continue
+        defs = [st.value for nd in scope_nodes for st in ast.walk(nd) if isinstance(st, ast.Assign) and any(isinstance(t, ast.Name) and t.id == e.id for t in st.targets)]
+        if len(defs) == 1:
+            e = defs[0]
+            continue
+        break
+    return e
+
+
 def rule_allpair(prog, rep, tier, anchor="gen.gen"):
+    from sa.cfg import expr_guards as _eg
     fi = prog.fn(anchor)
+    region = prog.region(fi)
+    nodes = [f.node for f in region]
+    helpers = [f for f in region if f is not fi and f.parent_fn is None]
     appends = [c for c in ast.walk(fi.node) if isinstance(c, ast.Call) and isinstance(c.func, ast.Attribute) and c.func.attr == "append" and isinstance(c.func.value, ast.Name)]
-    # the list that ends up in __all__: find Assign(targets=[Name("__all__", ...)]) construction
-    all_ctor = [c for c in ast.walk(fi.node) if isinstance(c, ast.Call) and (c.func.id if isinstance(c.func, ast.Name) else "") == "Assign"
-                and any(isinstance(x, ast.Constant) and x.value == "__all__" for x in ast.walk(c))]
-    if not all_ctor:
-        raise AnalysisError("ALL-PAIR: gen no longer builds an `__all__` assignment node")
-    ac = all_ctor[0]
-    names_used = names_in(ac)
+    ctors = _has_all_ctor(nodes)
+    if not ctors:
+        raise AnalysisError("ALL-PAIR: neither gen nor a helper of it builds an `__all__` assignment node")
+    # which per-entry list reaches the __all__ node?
     lists = {c.func.value.id for c in appends}
-    src_lists = names_used & lists
+    src_lists = set()
+    for L in lists:
+        for u in ast.walk(fi.node):
+            if isinstance(u, ast.Name) and u.id == L and isinstance(u.ctx, ast.Load) and not (isinstance(u._parent, ast.Attribute) and u._parent.attr == "append"):
+                # inside an __all__ constructor expression, or an argument of a helper that builds it
+                p = u._parent
+                while p is not None and p is not fi.node:
+                    if p in ctors:
+                        src_lists.add(L)
+                    if isinstance(p, ast.Call):
+                        for t in prog.resolve_expr_fn(p.func, p):
+                            if isinstance(t, FunctionInfo) and _has_all_ctor([f.node for f in prog.region(t)]):
+                                src_lists.add(L)
+                    p = p._parent
     if not src_lists:
         rep.violation(Finding("ALL-PAIR", anchor, "__all__-source",
                               "the value of __all__ is not built from the list that is filled once per mapping entry (%s): it can list names that were not generated, "
-                              "or miss generated ones" % (sorted(lists) or "no per-entry list"), loc(prog, ac)))
+                              "or miss generated ones" % (sorted(lists) or "no per-entry list"), loc(prog, ctors[0])))
         return
     lst = sorted(src_lists)[0]
     apps = [c for c in appends if c.func.value.id == lst]
-    # exactly one append, inside the per-entry generator, with the same expression that names the definition
-    gens = [g for g in ast.walk(fi.node) if isinstance(g, (ast.GeneratorExp, ast.ListComp)) and any(a in list(ast.walk(g)) for a in apps)]
-    loops = [l for l in ast.walk(fi.node) if isinstance(l, ast.For) and any(a in list(ast.walk(l)) for a in apps)]
-    if len(apps) != 1 or not (gens or loops):
-        rep.violation(Finding("ALL-PAIR", anchor, "append-count", "%d appends to %s (expected exactly one, inside the per-entry element)" % (len(apps), lst), loc(prog, apps[0] if apps else ac)))
+    if len(apps) != 1:
+        rep.violation(Finding("ALL-PAIR", anchor, "append-count", "%d appends to %s (expected exactly one, executed once per mapping entry)" % (len(apps), lst), loc(prog, apps[0] if apps else ctors[0])))
         return
     app = apps[0]
-    if gens:
-        g = gens[0]
+    # the per-entry element: generator / loop containing the append, directly or through one nested function called once
+    holder_fn = enclosing_fn(app)
+    site = app
+    elt_roots = []
+    if holder_fn is not fi and holder_fn is not None:
+        if _eg(app, stop=holder_fn.node):
+            rep.violation(Finding("ALL-PAIR", anchor, "entry-filter", "the per-entry append is conditional inside %s: entries can be missing from __all__" % holder_fn.qualname, loc(prog, app)))
+        calls = [c for c in ast.walk(fi.node) if isinstance(c, ast.Call) and isinstance(c.func, ast.Name) and c.func.id == holder_fn.name and enclosing_fn(c) is fi]
+        if len(calls) != 1:
+            rep.violation(Finding("ALL-PAIR", anchor, "append-count", "the function holding the per-entry append (%s) is called %d times" % (holder_fn.name, len(calls)), loc(prog, app)))
+            return
+        site = calls[0]
+        elt_roots.append(holder_fn.node)
+    g = None
+    p = site._parent
+    while p is not None and p is not fi.node:
+        if isinstance(p, (ast.GeneratorExp, ast.ListComp, ast.For)):
+            g = p
+            break
+        p = p._parent
+    if g is None:
+        rep.violation(Finding("ALL-PAIR", anchor, "append-count", "the append to %s is not inside a per-entry generator or loop" % lst, loc(prog, app)))
+        return
+    if isinstance(g, ast.For):
+        if _eg(site, stop=g):
+            rep.violation(Finding("ALL-PAIR", anchor, "entry-filter", "the per-entry append is conditional: entries can be skipped in __all__", loc(prog, site)))
+        elt_roots.append(g)
+    else:
         if any(gg.ifs for gg in g.generators):
             rep.violation(Finding("ALL-PAIR", anchor, "entry-filter", "the per-entry generator has a condition: entries can be skipped", loc(prog, g)))
-        elt_root = g.elt
-    else:
-        g = loops[-1]  # innermost loop containing the append
-        # the append must run on every iteration: not nested under a condition / continue inside the loop body
-        from sa.cfg import expr_guards as _eg
-        if _eg(app, stop=g):
-            rep.violation(Finding("ALL-PAIR", anchor, "entry-filter", "the per-entry append is conditional: entries can be skipped in __all__", loc(prog, app)))
-        elt_root = g
-    name_expr = dump(app.args[0])
-    # the expression the emitted definition is named by: values of the `*_name` keys handed to the emitter; when the
-    # value is a lambda parameter, the argument the lambda is applied to
+        elt_roots.append(g.elt)
+    scopes = [fi.node]
     naming = []
-    for d in ast.walk(elt_root):
-        if isinstance(d, ast.Dict):
-            for k, v in zip(d.keys, d.values):
-                if isinstance(k, ast.Constant) and isinstance(k.value, str) and k.value.endswith("_name"):
-                    if isinstance(v, ast.Name):
-                        lam = v
-                        while lam is not None and not (isinstance(lam, ast.Lambda) and v.id in {a.arg for a in lam.args.args}):
-                            lam = getattr(lam, "_parent", None)
-                        if lam is not None and isinstance(lam._parent, ast.Call) and lam._parent.func is lam and lam._parent.args:
-                            naming.append(lam._parent.args[[a.arg for a in lam.args.args].index(v.id)])
-                            continue
-                    naming.append(v)
-        elif isinstance(d, ast.keyword) and d.arg and d.arg.endswith("_name"):
-            naming.append(d.value)
+    for root in elt_roots:
+        for d in ast.walk(root):
+            if isinstance(d, ast.Dict):
+                for k, v in zip(d.keys, d.values):
+                    if isinstance(k, ast.Constant) and isinstance(k.value, str) and k.value.endswith("_name"):
+                        naming.append(v)
+            elif isinstance(d, ast.keyword) and d.arg and d.arg.endswith("_name"):
+                naming.append(d.value)
     if not naming:
         raise AnalysisError("ALL-PAIR: cannot find the expression that names the emitted definition (a `*_name` argument of the emitter)")
-    same = [x for x in naming if dump(x) == name_expr]
-    if same and len(same) == len(naming):
-        rep.holds("ALL-PAIR", "__all__ entry and emitted name are the same expression %s" % src(app.args[0], 50), loc(prog, app), "one append per mapping entry")
+    want = dump(_resolve_single_def(app.args[0], scopes))
+    got = [dump(_resolve_single_def(x, scopes)) for x in naming]
+    if all(x == want for x in got):
+        rep.holds("ALL-PAIR", "__all__ entry and emitted name are the same expression %s" % src(_resolve_single_def(app.args[0], scopes), 50), loc(prog, app), "one append per mapping entry")
     else:
-        rep.violation(Finding("ALL-PAIR", anchor, "name-mismatch", "the name appended to %s (%s) is not the expression the emitted definition is named by" % (lst, src(app.args[0], 50)), loc(prog, app)))
-    # evaluation order: the expression reading the list comes after the join that fills it (keyword order of the enclosing format call)
+        rep.violation(Finding("ALL-PAIR", anchor, "name-mismatch", "the name appended to %s (%s) is not the expression the emitted definition is named by (%s)"
+                              % (lst, src(app.args[0], 50), src(naming[got.index(next(x for x in got if x != want))], 50)), loc(prog, app)))
+    # evaluation order: the list is read (the __all__ node rendered) after the generator/loop has filled it
+    reads = [u for u in ast.walk(fi.node) if isinstance(u, ast.Name) and u.id == lst and isinstance(u.ctx, ast.Load) and not (isinstance(u._parent, ast.Attribute) and u._parent.attr == "append")]
     fmt = None
     p = g
     while p is not None and p is not fi.node:
-        if isinstance(p, ast.Call) and isinstance(p.func, ast.Attribute) and p.func.attr == "format" and ac in list(ast.walk(p)):
+        if isinstance(p, ast.Call) and isinstance(p.func, ast.Attribute) and p.func.attr == "format" and any(r in list(ast.walk(p)) for r in reads):
             fmt = p
             break
         p = p._parent
-    if fmt is not None and isinstance(g, ast.For):
-        fmt = None
-    if fmt is not None:
+    if fmt is not None and not isinstance(g, ast.For):
         order = []
         for k in fmt.keywords:
-            if g in list(ast.walk(k.value)):
+            sub = list(ast.walk(k.value))
+            if g in sub:
                 order.append("fill")
-            if ac in list(ast.walk(k.value)):
+            if any(r in sub for r in reads):
                 order.append("read")
         if order == ["fill", "read"]:
             rep.holds("ALL-PAIR", "the list is filled (definitions joined) before __all__ is rendered", loc(prog, fmt), "keyword evaluation order of str.format")
         else:
             rep.violation(Finding("ALL-PAIR", anchor, "eval-order", "__all__ is rendered before the per-entry generator has filled the list (argument order %r)" % order, loc(prog, fmt)))
     else:
-        if ac.lineno > g.lineno:
-            rep.holds("ALL-PAIR", "__all__ built after the definitions", loc(prog, ac), "statement order")
+        first_read = min((r.lineno for r in reads), default=10 ** 9)
+        g_end = getattr(g, "end_lineno", g.lineno)
+        lazy = isinstance(g, ast.GeneratorExp)
+        if first_read > g_end and not lazy or (lazy and fmt is None and first_read > g_end and _generator_consumed_before(fi, g, first_read)):
+            rep.holds("ALL-PAIR", "__all__ built after the definitions", loc(prog, reads[0] if reads else g), "statement order")
+        elif lazy:
+            rep.ob("ALL-PAIR", "evaluation order of a lazy generator", "unresolved", loc(prog, g), "cannot order the consumption of the generator and the read of %s" % lst)
         else:
-            rep.violation(Finding("ALL-PAIR", anchor, "eval-order", "__all__ is built before the definitions are generated", loc(prog, ac)))
+            rep.violation(Finding("ALL-PAIR", anchor, "eval-order", "__all__ is built before the definitions are generated", loc(prog, reads[0] if reads else g)))
+
+
+def _generator_consumed_before(fi, g, line):
+    """the generator expression is consumed (joined / listed) in a statement that ends before `line`"""
+    st = g
+    while not isinstance(st, ast.stmt):
+        st = st._parent
+    par = g._parent
+    consumed = isinstance(par, ast.Call) and (getattr(par.func, "attr", "") in ("join",) or getattr(par.func, "id", "") in ("list", "tuple"))
+    return consumed and getattr(st, "end_lineno", st.lineno) < line
 
 
 def rule_gen_layout(prog, rep, tier, anchor="gen.gen"):
@@ -542,7 +620,9 @@ def rule_gen_layout(prog, rep, tier, anchor="gen.gen"):
                     roles.append("prepend")
                 elif f == "imports":
                     roles.append("imports")
-                elif kv is not None and any(isinstance(x, ast.Constant) and x.value == "__all__" for x in ast.walk(kv)):
+                elif kv is not None and (any(isinstance(x, ast.Constant) and x.value == "__all__" for x in ast.walk(kv))
+                                         or any(isinstance(x, ast.Call) and any(isinstance(t, FunctionInfo) and _has_all_ctor([f_.node for f_ in prog.region(t)])
+                                                                                for t in prog.resolve_expr_fn(x.func, x)) for x in ast.walk(kv))):
                     roles.append("__all__")
                 else:
                     roles.append("definitions")
